@@ -51,6 +51,41 @@ fn build(l: &Logical, h: u32, asyncm: bool, rng: &mut Rng) -> Result<Vec<u8>, St
             arch = if h == 5 || asyncm { Arch::open_async(b) } else { Arch::open_sync(b) }.map_err(e)?;
             ids = ids[split..].to_vec();
         }
+        6 | 7 => {
+            // a superset is saved and reopened; the extra tiles (unique contents, ids interleaved with and
+            // beyond the archive's) are then dropped by removals only (6) or by a range-filtered open (7)
+            for id in &ids {
+                arch.add(*id, l.tiles[id].as_ref().clone()).map_err(e)?;
+            }
+            let last = ids.last().copied().unwrap_or(0);
+            let mut extras: Vec<u64> = Vec::new();
+            if h == 6 {
+                for w in ids.windows(2).step_by(3).take(20) {
+                    if w[1] - w[0] > 1 {
+                        extras.push(w[0] + 1);
+                    }
+                }
+            }
+            extras.extend([last + 2, last + 5]);
+            for (k, x) in extras.iter().enumerate() {
+                let mut c = vec![0xD0u8; 7 + k % 5];
+                c[0] = k as u8;
+                arch.add(*x, c).map_err(e)?;
+            }
+            arch.set_codec(R::CODECS[rng.usize(0, 3)]);
+            arch.apply_settings(l);
+            arch.set_codec(R::CODECS[rng.usize(0, 3)]);
+            let b = arch.save().map_err(e)?;
+            if h == 6 {
+                arch = if asyncm { Arch::open_async(b) } else { Arch::open_sync(b) }.map_err(e)?;
+                for x in &extras {
+                    arch.remove(*x);
+                }
+            } else {
+                arch = Arch::open_sync_partially(b, last).map_err(e)?;
+            }
+            ids.clear();
+        }
         _ => {}
     }
     for id in &ids {
@@ -112,12 +147,24 @@ pub fn run(ctx: &mut Ctx) {
         let l = logical_for(ctx, "c16", i);
         let mut rng = ctx.rng("c16.h", i);
         let mat = l.describe();
-        let names = ["sorted", "reversed", "shuffled+metadata key order", "detours (replace/remove/duplicate adds)", "save+reopen midway", "save+async-reopen midway"];
+        let names = [
+            "sorted",
+            "reversed",
+            "shuffled+metadata key order",
+            "detours (replace/remove/duplicate adds)",
+            "save+reopen midway",
+            "save+async-reopen midway",
+            "superset saved, reopened, extras removed",
+            "superset saved, range-filtered open",
+        ];
         let mut outs: Vec<(String, Vec<u8>)> = Vec::new();
         let mut failed = false;
-        for h in 0..6u32 {
+        for h in 0..8u32 {
             for asyncm in [false, true] {
-                if asyncm && !(h == 0 || h == 2 || h == 4) {
+                if asyncm && !(h == 0 || h == 2 || h == 4 || h == 6) {
+                    continue;
+                }
+                if h >= 6 && l.tiles.is_empty() {
                     continue;
                 }
                 if h == 5 && asyncm {
